@@ -29,6 +29,7 @@ import (
 	"github.com/AdguardTeam/AdGuardDNS/internal/dnsmsg"
 	"github.com/AdguardTeam/AdGuardDNS/internal/dnsserver"
 	"github.com/AdguardTeam/AdGuardDNS/internal/filter"
+	"github.com/AdguardTeam/AdGuardDNS/internal/geoip"
 	"github.com/AdguardTeam/AdGuardDNS/internal/profiledb"
 	"github.com/AdguardTeam/AdGuardDNS/verifh/hlib"
 	"github.com/AdguardTeam/AdGuardDNS/verifh/hlib/stack"
@@ -108,6 +109,29 @@ type dbState struct {
 
 func hx(s string) string { return "x" + hex.EncodeToString([]byte(s)) }
 
+// allIPs is every address of both pools in the form the finder looks it up
+// (unmapped, zone kept): the look-up tables cover remote addresses under the
+// dedicated-address look-up and local ones under the linked-address look-up
+// too, so that exchanged arguments are observable.
+func allIPs() (ips []string) {
+	seen := map[string]bool{}
+	add := func(a netip.Addr) {
+		k := a.Unmap().String()
+		if !seen[k] {
+			seen[k] = true
+			ips = append(ips, k)
+		}
+	}
+	for _, r := range remoteIPs {
+		add(netip.MustParseAddr(r))
+	}
+	for _, l := range localAddrs {
+		add(netip.MustParseAddrPort(l).Addr())
+	}
+
+	return ips
+}
+
 func b2s(b bool) string {
 	if b {
 		return "1"
@@ -116,11 +140,28 @@ func b2s(b bool) string {
 	return "0"
 }
 
+// qnameAccess is the access list of one profile: it blocks exactly the
+// question pblock-<profile id>.c03.example.
+type qnameAccess struct{ id string }
+
+func (qnameAccess) Config() (conf *access.ProfileConfig) { return nil }
+
+func (a qnameAccess) IsBlocked(req *dns.Msg, _ netip.AddrPort, _ *geoip.Location) (blocked bool) {
+	return strings.EqualFold(req.Question[0].Name, pblockName(a.id))
+}
+
+func pblockName(id string) string { return "pblock-" + id + ".c03.example." }
+
+const (
+	plainName    = "c03.example.org."
+	gblockedName = "gblocked.c03.example."
+)
+
 func newProfile(id string, deleted bool) *agd.Profile {
 	return &agd.Profile{
 		FilterConfig: &filter.ConfigClient{Custom: &filter.ConfigCustom{}, Parental: &filter.ConfigParental{},
 			RuleList: &filter.ConfigRuleList{}, SafeBrowsing: &filter.ConfigSafeBrowsing{}},
-		Access: access.EmptyProfile{}, BlockingMode: &dnsmsg.BlockingModeNullIP{}, Ratelimiter: agd.GlobalRatelimiter{},
+		Access: qnameAccess{id: id}, BlockingMode: &dnsmsg.BlockingModeNullIP{}, Ratelimiter: agd.GlobalRatelimiter{},
 		ID: agd.ProfileID(id), FilteredResponseTTL: 10 * time.Second, Deleted: deleted,
 		AutoDevicesEnabled: true, QueryLogEnabled: true, IPLogEnabled: true,
 	}
@@ -152,11 +193,20 @@ var (
 	devProfile  = map[string]string{"dev1": "prof1", "abcd1234": "prof1", "hum1": "prof1", "hum3": "prof1", "a": "prof2", "z9": "prof2", "DevX": "prof2", "hum2": "prof2", "otr": "p3", "auto1": "p3", "secret1": "p3"}
 	// "tv-d" is what a label cut one label too late ("tv.d" of "otr-prof1-tv.d…") normalises to.
 	devHuman    = map[string]string{"hum1": "my-phone", "hum2": "tv", "hum3": "tv-d"}
-	devLinked   = map[string]string{"dev1": "198.51.100.1", "z9": "2001:db8::1", "hum1": "198.51.100.2"}
+	// "a" is linked to a link-local address: sockets report such clients with a
+	// zone (fe80::1%eth0), which equals no stored address.
+	devLinked   = map[string]string{"dev1": "198.51.100.1", "z9": "2001:db8::1", "hum1": "198.51.100.2", "a": "fe80::1"}
 	devDed      = map[string][]string{"abcd1234": {"192.0.2.10"}, "a": {"192.0.2.11", "2001:db8::2"}, "DevX": {"192.0.2.2"}}
 	profIDs     = []string{"prof1", "prof2", "p3"}
-	remoteIPs   = []string{"198.51.100.1", "198.51.100.2", "2001:db8::1", "203.0.113.9"}
-	localAddrs  = []string{"192.0.2.2:53", "192.0.2.2:5353", "192.0.2.10:53", "192.0.2.11:53", "[2001:db8::2]:53", "192.0.2.77:53"}
+	// The last entries: a dedicated address of abcd1234 as a *remote* address and
+	// a linked address of dev1 as a *local* one (neither may recognise), the
+	// IPv4-mapped and the zoned spellings a socket can report.  (The globally
+	// blocked client 203.0.113.66 is used by genGate only.)
+	remoteIPs   = []string{"198.51.100.1", "198.51.100.2", "2001:db8::1", "203.0.113.9", "192.0.2.10", "::ffff:198.51.100.1",
+		"fe80::1", "fe80::1%eth0", "::ffff:198.51.100.2"}
+	localAddrs  = []string{"192.0.2.2:53", "192.0.2.2:5353", "192.0.2.10:53", "192.0.2.11:53", "[2001:db8::2]:53", "192.0.2.77:53",
+		"198.51.100.1:53", "[::ffff:192.0.2.10]:53", "[::ffff:192.0.2.2]:53", "[2001:db8::2%eth0]:53", "[fe80::1%eth0]:53"}
+	blockedClient = netip.MustParseAddr("203.0.113.66")
 	humanKeys   = []string{"my-phone", "tv", "a-b", "tv-d"}
 	createHuman = []string{"My-Phone", "my-phone", "tv", "TV", "a-b", "A-b"}
 	createDTs   = []int{1, 9}
@@ -243,7 +293,7 @@ func genDB(choose func(n int) int, auths func(id string) authChoice) (s *dbState
 			}
 		}
 	}
-	for _, ip := range remoteIPs {
+	for _, ip := range allIPs() {
 		var owner string
 		for id, l := range devLinked {
 			if l == ip && attached[id] {
@@ -256,8 +306,7 @@ func genDB(choose func(n int) int, auths func(id string) authChoice) (s *dbState
 			s.bylinked[ip] = dbRes{kind: failure()}
 		}
 	}
-	for _, la := range localAddrs {
-		ip := netip.MustParseAddrPort(la).Addr().String()
+	for _, ip := range allIPs() {
 		var owner string
 		for id, ds := range devDed {
 			for _, d := range ds {
@@ -369,7 +418,13 @@ func bindData(k int) (bd []*agd.ServerBindData, lines []string) {
 	}
 }
 
-var domainSets = [][]string{{}, {"d.dns.example"}, {"d.dns.example", "dev.example.org", "example"}, {"doh.ki.example", "d.dns.example"}}
+// The last two sets are what the configuration accepts besides ordinary
+// names ("*." gives the empty domain, which matches names ending in a dot and
+// then counts as no match — also for the domains after it; nothing is
+// lower-cased or validated): an empty and an upper-case domain in front of a
+// usable one, a domain starting with a dot.
+var domainSets = [][]string{{}, {"d.dns.example"}, {"d.dns.example", "dev.example.org", "example"}, {"doh.ki.example", "d.dns.example"},
+	{"", "d.dns.example"}, {"D.dns.example", ".example", "dev.example.org"}}
 
 // seen is what the handler behind all middlewares observed.
 type seen struct {
@@ -427,7 +482,7 @@ func buildWorld() (w *world) {
 	}
 	// A server group with profiles_enabled = false (dnssvc.newDeviceFinder
 	// installs the empty finder): nothing may ever be recognised there.
-	specs = append(specs, fxSpec{doms: domainSets[1], off: true})
+	specs = append(specs, fxSpec{doms: domainSets[1], off: true}, fxSpec{doms: domainSets[0], off: true})
 	for di, spec := range specs {
 		doms := spec.doms
 		fx := &fixture{}
@@ -472,6 +527,11 @@ func buildWorld() (w *world) {
 			Servers:       servers,
 			DeviceDomains:    append([]string{}, doms...),
 			ProfilesDisabled: spec.off,
+			// The global access manager blocks one client address and one name.
+			Access: &agdtest.AccessManager{
+				OnIsBlockedHost: func(host string, _ uint16) bool { return strings.HasPrefix(strings.ToLower(host), "gblocked.") },
+				OnIsBlockedIP:   func(ip netip.Addr) bool { return ip == blockedClient },
+			},
 			Upstream: dnsserver.HandlerFunc(func(ctx context.Context, rw dnsserver.ResponseWriter, req *dns.Msg) error {
 				ri := agd.MustRequestInfoFromContext(ctx)
 				// Only after a possible wait: what this request is attributed
@@ -525,6 +585,33 @@ type request struct {
 	opt   bool
 	local netip.AddrPort
 	rip   netip.Addr
+	// pre, if not nil, are the options of an additional OPT record standing
+	// before the one described by opt/edns (the last one counts).
+	pre []eopt
+	// wrapped: the case also exercises ratelimitmw.Wrap's own exits (model op
+	// wreq): qname selects the access rule, port0 is a spoofed remote port.
+	wrapped bool
+	qname   string
+	port0   bool
+}
+
+// gate is the harness's own reading of which of Wrap's early exits applies.
+func (q *request) gate() (flags, pblock string) {
+	name := strings.ToLower(q.qname)
+	pblock = "-"
+	if strings.HasPrefix(name, "pblock-") {
+		pblock = hx(strings.TrimSuffix(strings.TrimPrefix(name, "pblock-"), ".c03.example."))
+	}
+
+	return b2s(q.port0) + b2s(q.rip.Unmap() == blockedClient) + b2s(strings.HasPrefix(name, "gblocked.")), pblock
+}
+
+// silent reports whether the property demands that the request gets no answer
+// and reaches no later stage whatever it carries.
+func (q *request) silent() bool {
+	flags, _ := q.gate()
+
+	return strings.Contains(flags, "1")
 }
 
 type eopt struct {
@@ -540,19 +627,35 @@ func (q *request) line() string {
 	case "p":
 		ui = "p:" + hx(q.user) + ":" + hx(q.pass)
 	}
-	ed := "-"
-	if q.opt {
-		ed = "e"
-		if len(q.edns) > 0 {
-			parts := make([]string, len(q.edns))
-			for i, o := range q.edns {
-				parts[i] = fmt.Sprintf("%d:%s", o.code, hx(o.data))
-			}
-			ed = strings.Join(parts, ",")
+	optTok := func(opts []eopt) string {
+		if len(opts) == 0 {
+			return "e"
 		}
+		parts := make([]string, len(opts))
+		for i, o := range opts {
+			parts[i] = fmt.Sprintf("%d:%s", o.code, hx(o.data))
+		}
+
+		return strings.Join(parts, ",")
+	}
+	var recs []string
+	if q.pre != nil {
+		recs = append(recs, optTok(q.pre))
+	}
+	if q.opt {
+		recs = append(recs, optTok(q.edns))
+	}
+	ed := "-"
+	if len(recs) > 0 {
+		ed = strings.Join(recs, "|")
+	}
+	op := "req"
+	if q.wrapped || q.silent() {
+		flags, pblock := q.gate()
+		op = "wreq " + flags + " " + pblock
 	}
 
-	return fmt.Sprintf("req %s %s %s %s %s %d %s", ui, hx(q.path), hx(q.sni), ed, q.local.Addr(), q.local.Port(), q.rip)
+	return fmt.Sprintf("%s %s %s %s %s %s %d %s", op, ui, hx(q.path), hx(q.sni), ed, q.local.Addr(), q.local.Port(), q.rip)
 }
 
 func (q *request) userinfo() *url.Userinfo {
@@ -568,10 +671,14 @@ func (q *request) userinfo() *url.Userinfo {
 
 func (q *request) msg() *dns.Msg {
 	m := &dns.Msg{}
-	m.SetQuestion("c03.example.org.", dns.TypeA)
-	if q.opt {
+	name := q.qname
+	if name == "" {
+		name = plainName
+	}
+	m.SetQuestion(name, dns.TypeA)
+	mk := func(opts []eopt) *dns.OPT {
 		o := &dns.OPT{Hdr: dns.RR_Header{Name: ".", Rrtype: dns.TypeOPT, Class: 1232}}
-		for _, e := range q.edns {
+		for _, e := range opts {
 			switch e.code {
 			case dns.EDNS0NSID:
 				o.Option = append(o.Option, &dns.EDNS0_NSID{Code: dns.EDNS0NSID, Nsid: hex.EncodeToString([]byte(e.data))})
@@ -579,7 +686,15 @@ func (q *request) msg() *dns.Msg {
 				o.Option = append(o.Option, &dns.EDNS0_LOCAL{Code: e.code, Data: []byte(e.data)})
 			}
 		}
-		m.Extra = append(m.Extra, o)
+
+		return o
+	}
+	if q.pre != nil {
+		// An unrelated record between the two OPT records.
+		m.Extra = append(m.Extra, mk(q.pre), &dns.TXT{Hdr: dns.RR_Header{Name: "x.", Rrtype: dns.TypeTXT, Class: dns.ClassINET}, Txt: []string{"dev1"}})
+	}
+	if q.opt {
+		m.Extra = append(m.Extra, mk(q.edns))
 	}
 
 	return m
@@ -627,7 +742,11 @@ func call(v *srvVariant, q *request, ri *dnsserver.RequestInfo, id uint16, o *ou
 	}()
 	m := q.msg()
 	m.Id = id
-	out := v.st.st.Serve(context.Background(), &stack.Req{Server: v.srv, Msg: m, Remote: netip.AddrPortFrom(q.rip, 1234),
+	rport := uint16(1234)
+	if q.port0 {
+		rport = 0
+	}
+	out := v.st.st.Serve(context.Background(), &stack.Req{Server: v.srv, Msg: m, Remote: netip.AddrPortFrom(q.rip, rport),
 		Local: q.local, ReqInfo: ri})
 	o.resp = out.Resp != nil
 	if out.Err != nil {
@@ -750,6 +869,18 @@ func (o *outcome) canon() string {
 	return head + " cont=1 down=" + down
 }
 
+// canonFor is canon in the vocabulary of the model op used for q: the wrapped
+// op cannot tell the silent drops of Wrap apart (unknown dedicated address,
+// access, spoofed port) and calls them all "drop".
+func (o *outcome) canonFor(q *request) string {
+	c := o.canon()
+	if (q.wrapped || q.silent()) && c == "unkded cont=0 down=anon" {
+		return "drop"
+	}
+
+	return c
+}
+
 // ---------------------------------------------------------------------------
 // The property oracle.  It looks only at the request, the server settings, the
 // fixture's own knowledge of the devices (plaintext passwords, identifiers)
@@ -803,7 +934,28 @@ func sniRefers(sni string, domains []string, p *agd.Profile, d *agd.Device) bool
 	return false
 }
 
-func ownAddr(v *srvVariant, a netip.AddrPort) bool { return v.srv.HasAddr(a) }
+// ownAddr: is a one of the server's own addresses?  Written against the bind
+// layouts of bindData, not against agd.Server.HasAddr, which is code under test.
+func ownAddr(v *srvVariant, a netip.AddrPort) bool {
+	a = netip.AddrPortFrom(a.Addr().Unmap(), a.Port())
+	own4, own6 := netip.MustParseAddrPort("192.0.2.2:53"), netip.MustParseAddrPort("[2001:db8::2]:53")
+	switch v.bindK {
+	case 0:
+		return a == own4
+	case 1, 3:
+		return a == own4 || a == own6
+	default:
+		// A single prefix wider than one address: every address is dedicated.
+		return false
+	}
+}
+
+// bindsToInterfaces, again from the layouts alone.
+func bindsToInterfaces(v *srvVariant) bool { return v.bindK >= 2 }
+
+// sameHost compares addresses the way the property reads them: an IPv4-mapped
+// address is the IPv4 address, a zone does not make another host.
+func sameHost(a, b netip.Addr) bool { return a.Unmap().WithZone("") == b.Unmap().WithZone("") }
 
 // carriesOwnID: does the request carry d's identifier through a channel that
 // is valid for the server's transport?
@@ -817,21 +969,21 @@ func carriesOwnID(v *srvVariant, q *request, p *agd.Profile, d *agd.Device) bool
 	case agd.ProtoDoT, agd.ProtoDoQ:
 		return sniRefers(q.sni, v.domains, p, d)
 	case agd.ProtoDNS:
-		if q.opt {
-			for _, e := range q.edns {
-				if e.code == 65074 && e.data == string(d.ID) {
-					return true
-				}
+		// Any OPT record of the message counts here; which one the code reads
+		// is checked against the model.
+		for _, e := range append(append([]eopt{}, q.pre...), q.edns...) {
+			if e.code == 65074 && e.data == string(d.ID) {
+				return true
 			}
 		}
-		if v.srv.BindsToInterfaces() && !ownAddr(v, q.local) {
+		if bindsToInterfaces(v) && !ownAddr(v, q.local) {
 			for _, ip := range d.DedicatedIPs {
-				if ip == q.local.Addr() {
+				if sameHost(ip, q.local.Addr()) {
 					return true
 				}
 			}
 		}
-		if v.linked && d.LinkedIP == q.rip {
+		if v.linked && d.LinkedIP.IsValid() && sameHost(d.LinkedIP, q.rip) {
 			return true
 		}
 
@@ -872,6 +1024,15 @@ func (c *checker) oracle(v *srvVariant, db *dbState, q *request, o *outcome, rep
 	}
 	if o.reached && (o.kind == "ok") != recognised {
 		r.Violate("profile-exposed-without-ok", "DeviceData and DeviceResult kind disagree: "+o.kind, replay())
+	}
+	if q.silent() && (o.reached || o.resp || o.errText != "" || len(o.billDevs) > 0 || len(o.logIDs) > 0) {
+		// Spoofed port or globally blocked client / name: no answer of any
+		// kind, whatever the request carries and whatever the finder says.
+		r.Violate("blocked-client-served", proto+" request of a spoofed or globally blocked client was not dropped silently: "+o.canon(), replay())
+	}
+	if q.silent() {
+		// Nothing was served, so the "served as anonymous" clauses do not apply.
+		return
 	}
 	if v.profilesOff {
 		if recognised || !o.reached || !o.resp {
@@ -981,7 +1142,7 @@ func genPath(rng *rand.Rand) string {
 func genSNI(rng *rand.Rand, v *srvVariant) string {
 	if len(v.domains) > 0 && rng.IntN(2) == 0 {
 		d := pick(rng, v.domains)
-		if rng.IntN(4) == 0 {
+		if rng.IntN(4) == 0 && d != "" {
 			d = strings.ToUpper(d[:1]) + d[1:]
 		}
 
@@ -998,6 +1159,15 @@ func genSNI(rng *rand.Rand, v *srvVariant) string {
 		return genLabel(rng) + "." + pick(rng, sniDomains) + "."
 	case 4:
 		return genLabel(rng) + pick(rng, sniDomains)
+	case 6, 7:
+		// Nested labels with the identifier in front: <id>.<junk>.<domain>,
+		// <id>.<junk><domain>, <id>..<domain>.
+		d := pick(rng, sniDomains)
+		if len(v.domains) > 0 && rng.IntN(3) > 0 {
+			d = pick(rng, v.domains)
+		}
+
+		return genLabel(rng) + pick(rng, []string{".x.", ".x", "..", ".dev1.", ".d."}) + d
 	case 5:
 		return genLabel(rng) + "."
 	default:
@@ -1072,9 +1242,37 @@ func genRequest(rng *rand.Rand, v *srvVariant, db *dbState) (q *request) {
 	}
 	if own(agd.ProtoDNS) || rng.IntN(4) == 0 {
 		q.opt, q.edns = genEDNS(rng)
+		if rng.IntN(6) == 0 {
+			// A second OPT record in front of the usual one.
+			_, q.pre = genEDNS(rng)
+			if q.pre == nil {
+				q.pre = []eopt{}
+			}
+		}
+	}
+	if rng.IntN(6) == 0 {
+		genGate(rng, q, 2)
 	}
 
 	return q
+}
+
+// genGate makes q exercise Wrap's own exits; the higher strength, the more
+// likely one of them applies.
+func genGate(rng *rand.Rand, q *request, strength int) {
+	q.wrapped = true
+	if rng.IntN(4) < strength {
+		switch rng.IntN(6) {
+		case 0:
+			q.port0 = true
+		case 1:
+			q.rip = netip.MustParseAddr(pick(rng, []string{"203.0.113.66", "::ffff:203.0.113.66"}))
+		case 2:
+			q.qname = pick(rng, []string{gblockedName, "GBlocked.c03.example."})
+		default:
+			q.qname = pblockName(pick(rng, profIDs))
+		}
+	}
 }
 
 func findDev(db *dbState, id string) *devInfo {
@@ -1146,7 +1344,7 @@ func (rn *runner) runCase(v *srvVariant, db *dbState, reqs []*request, campaign 
 		}
 		// The property oracle first, independently of the model.
 		rn.c.oracle(v, db, q, &o, replay)
-		got := o.canon()
+		got := o.canonFor(q)
 		rn.pend = append(rn.pend, pending{lineIdx: len(rn.lines), got: got, ops: replay})
 		rn.lines = append(rn.lines, line)
 		kind := strings.SplitN(got, " ", 2)[0]
@@ -1326,10 +1524,29 @@ func overlapCampaign(o *hlib.Opts, rn *runner, w *world) {
 		if rng.IntN(3) == 0 {
 			point = "db"
 		}
+		// History: requests of the same server served to the end before the
+		// pair, most of them leaving Wrap through one of its early exits
+		// (access, spoofed port, finder error, unknown dedicated address), so
+		// that a mistake in what such an exit does with the pooled request
+		// information shows in the pair that follows.
+		var hist []*request
+		if rng.IntN(3) > 0 {
+			for k := 1 + rng.IntN(3); k > 0; k-- {
+				h := genRequest(rng, v, db)
+				genGate(rng, h, 3)
+				hist = append(hist, h)
+			}
+			rn.runCase(v, db, hist, "overlap-history")
+			rn.r.Count(fmt.Sprintf("overlap.history.%d", len(hist)))
+		}
 		o1, o2, overlapped := serveOverlap(v, db, first, second, point)
 		rn.lines = append(rn.lines, v.lines...)
 		rn.lines = append(rn.lines, db.lines...)
 		l1, l2 := first.line(), second.line()
+		var histLines []string
+		for _, h := range hist {
+			histLines = append(histLines, h.line())
+		}
 		for k, pr := range []struct {
 			q    *request
 			o    *outcome
@@ -1338,11 +1555,12 @@ func overlapCampaign(o *hlib.Opts, rn *runner, w *world) {
 			out, line := pr.o, pr.line
 			replay := func() any {
 				return map[string]any{"campaign": "overlap", "server": string(v.srv.Name), "overlapped": overlapped, "blocked_at": point,
-					"note": "request 1 is parked at blocked_at while request 2 is served completely; this finding is about request " + fmt.Sprint(k+1),
+					"note": "the history requests are served one after the other; then request 1 is parked at blocked_at while request 2 is served completely; this finding is about request " + fmt.Sprint(k+1),
+					"history": histLines,
 					"ops": append(append(append([]string{}, v.lines...), db.lines...), l1, l2), "observed": out.canon()}
 			}
 			rn.c.oracle(v, db, pr.q, out, replay)
-			rn.pend = append(rn.pend, pending{lineIdx: len(rn.lines), got: out.canon(), ops: replay})
+			rn.pend = append(rn.pend, pending{lineIdx: len(rn.lines), got: out.canonFor(pr.q), ops: replay})
 			rn.lines = append(rn.lines, line)
 			rn.r.Count("overlap." + b2s(overlapped) + "." + point + "." + strings.SplitN(out.canon(), " ", 2)[0])
 		}
